@@ -13,7 +13,7 @@ from props import c01
 FILES = ["Model_core.v", "Model_minerals.v", "Proofs_core.v", "Proofs_minerals.v", "Proofs_rhs.v",
          "Entry_core.v", "Extract_core.v"]
 PROP = "Properties/C08.v"
-TOL = 1e-6
+TOL = 1e-3   # solver tolerance (atol 1e-4 per component): alarm threshold for comparisons that are not required to be bitwise
 
 
 def tex_diff(ma, mb):
